@@ -250,7 +250,11 @@ def upload_view(drv):
             internal.append({"name": c(mn), "off": n(mi.get("offset")), "ttype": str(mi.get("tag_type")), "dtname": c(mi.get("data_type_name")),
                              "bit": n(mi.get("bit")), "arr": n(mi.get("array"), 0) if mi.get("array") is not None else 0})
         tp = d.get("template", {})
-        dts.append({"name": c(name), "attrs": [c(a) for a in d["attributes"]], "internal": internal, "string": n(d.get("string"), -1) if d.get("string") is not None else -1,
+        tc = d.get("type_class")
+        wire = n(getattr(tc, "size", None))
+        if wire >= 0 and d.get("string") is not None:
+            wire += n(getattr(getattr(tc, "len_type", None), "size", None), 0)      # LEN prefix + character area
+        dts.append({"name": c(name), "wire": wire, "attrs": [c(a) for a in d["attributes"]], "internal": internal, "string": n(d.get("string"), -1) if d.get("string") is not None else -1,
                     "size": n(tp.get("structure_size")), "count": n(tp.get("member_count")), "handle": n(tp.get("structure_handle")), "defsize": n(tp.get("object_definition_size"))})
     info = drv.info
     progs = [{"name": c(k), "routines": [c(r) for r in (v.get("routines") or [])]} for k, v in sorted(info.get("programs", {}).items())]
